@@ -301,6 +301,12 @@ PROPS["C18"] = {
 }
 
 PROPS["C10"]["components"].append(CircuitSeq("C10", None, 150, 4000, suite="gowrap", crash_is_violation=True))
+# the Go entry point for the return-value contract (C06) and — as far as the caller's answer shows it — for C05: a later Go call
+# must get ITS OWN function's answer (result channels recycled across calls hand it another call's)
+PROPS["C06"]["components"].append(CircuitSeq("C06", ["caller"], 150, 4000, suite="gowrap", crash_is_violation=True))
+PROPS["C06"]["rule"] += " gowrap: the Circuit.Go scenarios of C18, judged for the caller's answer (its own function's nil / error / panic, or the context's error)."
+PROPS["C05"]["components"].append(CircuitSeq("C05", ["caller", "lost"], 150, 4000, suite="gowrap", crash_is_violation=True))
+PROPS["C05"]["rule"] += " gowrap: the Circuit.Go scenarios of C18 (answers and lost-error reports: every outcome surfaces exactly once)."
 # C10: a panic of a user function that takes the PROCESS down did not reach its caller: the crashing case is the violation
 PROPS["C10"]["components"][0] = CircuitSeq("C10", ["res", "conc"], 1500, 60000, crash_is_violation=True)
 PROPS["C10"]["rule"] += " gowrap: the Circuit.Go scenarios of C18, judged for panics (value identity at Go's caller while the context has not ended)."
